@@ -1,4 +1,5 @@
 import Peppi.JsonText
+import Peppi.HashValue
 import Peppi.Tar
 import Peppi.TarCut
 import Peppi.PeppiJson
@@ -49,12 +50,12 @@ end
 def endRows (g : Game) : Option SCols :=
   g.frames.fend   -- below 3.7 the rows are member-less; there is one per Frame End event (the real struct counts them in its validity bitmap)
 
-def summary (g : Game) : String :=
+def summary (g : Game) (input : Bytes) : String :=
   let f := g.frames
   let ports := f.ports.map fun p =>
     s!"P{p.port}:{p.leader.pre.length}/{p.leader.post.length}/{showValid p.leader.valid}/{colsSum p.leader.pre}/{colsSum p.leader.post}" ++
     (match p.follower with | none => "" | some d => s!"+F:{d.pre.length}/{d.post.length}/{showValid d.valid}/{colsSum d.pre}/{colsSum d.post}")
-  s!"ok v={g.start.version.major}.{g.start.version.minor}.{g.start.version.patch} ids={f.id} ports={ports} start={f.start.map (·.length)}/{f.start.map colsSum} end={(endRows g).map (·.length)}/{(endRows g).map colsSum} off={f.itemOff} item={f.item.map (·.length)}/{f.item.map colsSum} gecko={g.gecko.map fun c => (c.actualSize, c.bytes.length)} dbl={g.doubleGameEnd} end?={g.fend.isSome} meta?={g.metadata.isSome} hashed={g.hashedLen}"
+  s!"ok v={g.start.version.major}.{g.start.version.minor}.{g.start.version.patch} ids={f.id} ports={ports} start={f.start.map (·.length)}/{f.start.map colsSum} end={(endRows g).map (·.length)}/{(endRows g).map colsSum} off={f.itemOff} item={f.item.map (·.length)}/{f.item.map colsSum} gecko={g.gecko.map fun c => (c.actualSize, c.bytes.length)} dbl={g.doubleGameEnd} end?={g.fend.isSome} meta?={g.metadata.isSome} hashed={match g.hashStr input with | some h => String.ofList h | none => "none"}"
 
 /-- one entry of the abstract `.slpp` archive as the harness describes it (externals already applied) -/
 def parseEntry (tok : String) : Option (PEntry String String) :=
@@ -118,14 +119,14 @@ partial def loop (h : IO.FS.Stream) : IO Unit := do
   | ["read", skip, hash, hex] =>
     let r := readSlp T { skipFrames := skip == "1", computeHash := hash == "1" } (parseHex hex)
     match r with
-    | .ok g => IO.println (summary g)
+    | .ok g => IO.println (summary g (parseHex hex))
     | .err e => IO.println s!"err {e}"
     | .panic p => IO.println s!"panic {p}"
   | ["read", skip, hash, "sj0", hex] =>
     -- the external Shift-JIS decoder rejects a name field of this file's start block (verdict passed by the harness)
     let r := readSlp { T with sjisOk := fun _ => false } { skipFrames := skip == "1", computeHash := hash == "1" } (parseHex hex)
     match r with
-    | .ok g => IO.println (summary g)
+    | .ok g => IO.println (summary g (parseHex hex))
     | .err e => IO.println s!"err {e}"
     | .panic p => IO.println s!"panic {p}"
   | ["reads", skip, hash, sj, plan, hex] =>
@@ -141,9 +142,13 @@ partial def loop (h : IO.FS.Stream) : IO Unit := do
         cut fuel (i + 1) (bs.drop k) (bs.take k :: acc)
     let s := cut (b.length + 1) 0 b []
     match readSlpS { T with sjisOk := fun _ => sj == "1" } { skipFrames := skip == "1", computeHash := hash == "1" } s with
-    | .ok (g, _) => IO.println (summary g)
+    | .ok (g, _) => IO.println (summary g b)
     | .err e => IO.println s!"err {e}"
     | .panic p => IO.println s!"panic {p}"
+  | ["xxh3", hex] =>
+    -- the XXH3-64 model on any byte string (an empty one arrives as a missing token)
+    IO.println s!"ok {String.ofList (formatHash (xxh3_64 (parseHex hex)))}"
+  | ["xxh3"] => IO.println s!"ok {String.ofList (formatHash (xxh3_64 []))}"
   | ["tarchk", hex] =>
     -- the byte-level tar model on a real archive: list it, rebuild it from the listing, compare byte for byte
     let a := parseHex hex
